@@ -5,6 +5,7 @@ import (
 	"go.opentelemetry.io/otel/trace"
 
 	"github.com/ipfs/go-graphsync"
+	"github.com/ipfs/go-graphsync/verifhook"
 )
 
 // IngestResponse ingests new remote items into the reconciled loader
@@ -12,6 +13,7 @@ func (rl *ReconciledLoader) IngestResponse(md graphsync.LinkMetadata, traceLink 
 	if md.Length() == 0 {
 		return
 	}
+	verifhook.Yield("rl.ingest")
 	duplicates := make(map[cid.Cid]struct{}, md.Length())
 	items := make([]*remotedLinkedItem, 0, md.Length())
 	md.Iterate(func(link cid.Cid, action graphsync.LinkAction) {
